@@ -98,7 +98,7 @@ class C03(Prop):
     budget_s = {'quick': 240, 'thorough': 3000}
 
     def cases(self, tier, seed, want):
-        n = 2500 if tier == 'quick' else 100000
+        n = 2500 if tier == 'quick' else 50000
         yield from common.doc_cases(seed, n, want, 'c03',
                                     lambda j: cfg_search(j, tier))
 
